@@ -181,7 +181,11 @@ impl Scenario for FailStop {
                         vio!(format!("C15:failing-operation-abandoned:{tag}"), "{:?} {tag}: operation {k} of {n} (and all later ones) would fail with {kind:?}; the call polled it once, got Pending, never completed it and returned success ({})", c.face, brief(&o));
                     }
                     o => {
-                        if o != reference {
+                        let agree = match (&o, &reference) {
+                            (Out::Text(a), Out::Text(b)) if matches!(c.call, Call::Lookup { .. }) => crate::scen_stream::lines_agree(a, b),
+                            _ => o == reference,
+                        };
+                        if !agree {
                             vio!(format!("C15:ok-but-incomplete:{tag}"), "{:?} {tag}: operation {k} of {n} and all later ones fail with {kind:?}, yet the call returns success; result {} differs from the fault-free result {}", c.face, brief(&o), brief(&reference));
                         }
                         ctx.bump("outcome_ok_and_complete", 1);
@@ -223,6 +227,10 @@ impl Scenario for FailStop {
                                 let mut sub = Ctx::default();
                                 let bad = match perform_p(&c.call, &prep, c.face, &c.pol, Fault::FailStop { at: *k, kind: *kind }, &mut sub) {
                                     Ok((Out::Failed(_), _)) => false,
+                                    Ok((Out::Text(a), _)) if matches!(c.call, Call::Lookup { .. }) => match &reference {
+                                        Out::Text(b) => !crate::scen_stream::lines_agree(&a, b),
+                                        _ => true,
+                                    },
                                     Ok((o, _)) => o != reference || sub.counters.get("abandoned_pending_ops").copied().unwrap_or(0) > 0,
                                     Err(_) => true,
                                 };
